@@ -34,17 +34,21 @@ Definition chk_c16_waiting (c : val) : val :=
   else if forallb (fun x => Z.eqb (as_Z x) 14) (as_L (nthv 1 impl)) then verdict_ok else verdict_propfail 3 (VL []).
 
 (* C02, idle clients on the web adapters: input ( entry how sent cs ss ) ; impl ( stuck code )
-   entry 0 transcoded WebSocket, 1 gRPC-WebSocket ; how 0 the client hangs up, 1 the call's grpc-timeout expires
-   code: for gRPC-WebSocket 4000 + the grpc-status of the trailer frame, otherwise the WebSocket close code
-   5: the handler did not return within 1.5 s after the client went away / the deadline expired
-   7: an expired deadline was not reported: gRPC-WebSocket must send a trailer with status 4 (DeadlineExceeded), the
-      transcoded WebSocket must close with 1001 (its close code for every failed call, C13) *)
+   entry 0 transcoded WebSocket, 1 gRPC-WebSocket, 2 gRPC-Web over HTTP with an unfinished request body
+   how 0 the client hangs up, 1 the call's grpc-timeout expires, 2 the target ends the call with PermissionDenied (7)
+   code: 4000 + the grpc-status of the trailer frame where the protocol has one, otherwise the WebSocket close code
+   5: the handler did not return within 1.5 s
+   7: the end of the call was not reported to the (still connected) client: gRPC-Web / gRPC-WebSocket must send a trailer
+      with the status (4 for the deadline, 7 for the target's), the transcoded WebSocket closes with 1001 (its close
+      code for every failed call, C13) *)
 Definition chk_c02_web_idle (c : val) : val :=
   let input := nthv 0 c in
   let impl := nthv 1 c in
-  let want := if Z.eqb (as_Z (nthv 0 input)) 0 then 1001 else 4004 in
+  let entry := as_Z (nthv 0 input) in
+  let how := as_Z (nthv 1 input) in
+  let want := if Z.eqb entry 0 then 1001 else if Z.eqb how 1 then 4004 else 4007 in
   if negb (Z.eqb (as_Z (nthv 0 impl)) 0) then verdict_propfail 5 (VL [])
-  else if Z.eqb (as_Z (nthv 1 input)) 1 && negb (Z.eqb (as_Z (nthv 1 impl)) want) then verdict_propfail 7 (VL [nthv 1 impl])
+  else if negb (Z.eqb how 0) && negb (Z.eqb (as_Z (nthv 1 impl)) want) then verdict_propfail 7 (VL [nthv 1 impl])
   else verdict_ok.
 
 (* C12, what a real gRPC target observes: input ( with-timeout ms other-header ) ; impl ( observed http-status )
